@@ -1091,8 +1091,8 @@ LEVEL_NOTE = (
     "(Cholesky, triangular solves, Woodbury) is taken to be the inverse (that is C10). softabs_*_partial: tanh is not "
     "algebraic, so the real SoftAbs class (x/tanh(alpha x), its float coincidence threshold sqrt(eps)) is covered by finite "
     "differences only; the model's j_mtx is proved equal to the divided-difference matrix for tolerance 0. Block diagonal is "
-    "proved for two blocks (k blocks = iterated binary case, as the driver assembles it). An exactly zero eigenvalue makes "
-    "SoftAbs raise ValueError (softabs(0) = 0/0): counted, not judged. Float rounding is outside the theorems: inputs are "
+    "proved for two blocks (k blocks = iterated binary case, as the driver assembles it). Exactly zero and tiny eigenvalues of "
+    "the unregularised SoftAbs array are regular points (softabs(0) = 1/coeff) and are judged like any other input. Float rounding is outside the theorems: inputs are "
     "dyadic with spectrum in [0.2, 40]; tolerances 1e-8 (exact model) and 2e-6 (finite differences); an error between the "
     "two is reported without a concrete failing input."
 )
